@@ -80,6 +80,11 @@ func (w *World) openExternal() error {
 	var werr error
 	for i := 0; i < 100; i++ {
 		if _, werr = db.GetKeys(ctx); werr == nil {
+			if !w.probed {
+				// the very first transaction of the first incarnation, ended at once (see probeTxID)
+				w.probed = true
+				w.probeTxID()
+			}
 			return nil
 		}
 		time.Sleep(100 * time.Millisecond)
@@ -107,6 +112,20 @@ func (e *extServer) rawRollback(ctx context.Context, id string) error {
 		return adapterErrors.ClientError(err)
 	}
 	return nil
+}
+
+// probeTxID begins a transaction directly on the wire, ends it at once and remembers its id (usable as a
+// "stale" id after the next restart of the server).
+func (w *World) probeTxID() {
+	if w.ext == nil || w.ext.raw == nil {
+		return
+	}
+	resp, err := w.ext.raw.BeginTx(context.Background(), &store.BeginTxRequest{})
+	if err != nil {
+		return
+	}
+	_ = w.ext.rawRollback(context.Background(), resp.GetId())
+	w.staleIDs = append(w.staleIDs, resp.GetId())
 }
 
 func (e *extServer) stop() {
